@@ -373,7 +373,7 @@ func (r *runner) both(src string) (implRes, string, ast.Node, bool) {
 
 func (r *runner) disagree(src string) (bool, string) {
 	impl, mo, _, ok := r.both(src)
-	if !ok || strings.HasPrefix(mo, "SKIP") {
+	if !ok || strings.HasPrefix(mo, "SKIP") || mo == "TIMEOUT" {
 		return false, ""
 	}
 	if impl.obs == mo {
@@ -397,6 +397,11 @@ func (r *runner) one(src string, kind string, feats map[string]bool) {
 	}
 	impl := runImpl(src, true)
 	line := caseLine(src, prog)
+	if impl.class == "P" && impl.val == "timeout" {
+		// does not end within the time limit (e.g. `for x = true {..}`): not a case
+		c.Count("impl-timeout")
+		return
+	}
 	// default settings (registers on): differences are other properties' business, only counted
 	dflt := runImpl(src, false)
 	if dflt.obs != impl.obs {
@@ -416,6 +421,10 @@ func (r *runner) one(src string, kind string, feats map[string]bool) {
 		return
 	}
 	mo := r.mp.ask(line)
+	if mo == "TIMEOUT" {
+		c.Count("model-timeout")
+		return
+	}
 	if strings.HasPrefix(mo, "SKIP") {
 		r.nSkip++
 		c.Count("model-" + strings.ReplaceAll(mo, " ", "="))
